@@ -399,7 +399,7 @@ pub fn c08_positions(c: &FuCtx, rec: &mut Rec) {
                 others_untouched(c, &["*new*".to_string()].into_iter().collect(), rec);
             }
         }
-        FuOp::ProvideLock { u, lp, lock_id, .. } => {
+        FuOp::ProvideLock { u, lp, lock_id, .. } | FuOp::ProvideLockSingle { u, lp, lock_id, .. } => {
             if ok {
                 let lpd = &c.pre.lps[*lp];
                 let minted = c.delta(FM, lpd);
@@ -542,7 +542,7 @@ pub fn c10_weights(c: &FuCtx, rec: &mut Rec) {
     for li in 0..post.lps.len() {
         for e in 0..=post.cur + 1 {
             let total = post.weight(FM, li, e);
-            let sum: u128 = (0..N_USERS).map(|u| post.weight(u, li, e)).sum();
+            let sum: u128 = (0..N_USERS).map(|u| post.weight(u, li, e)).sum::<u128>() + post.weight(PM, li, e);
             if total < sum {
                 rec.viol("C10_total_lt_sum_users", format!("lp{li} epoch {e}: total {total} < sum of users {sum} ({:?})", (0..N_USERS).map(|u| post.weight(u, li, e)).collect::<Vec<_>>()));
             } else if total != sum && !c.g1.pieces.contains(&li) && e == post.cur + 1 {
@@ -563,6 +563,10 @@ pub fn c10_weights(c: &FuCtx, rec: &mut Rec) {
                     rec.viol("C10_weight_below_open_amount", format!("user {u} lp{li}: weight {} < open LP {open_sum}", post.weight(u, li, post.cur + 1)));
                 }
             }
+        }
+        // contracts never hold positions: the pool manager (the only delegate) must not end up with weight of its own
+        if post.wraw.contains_key(&(PM, li)) {
+            rec.viol("C10_weight_without_open_position", format!("the pool manager address holds weight in lp{li}: {:?}", post.wraw.get(&(PM, li))));
         }
         // changes take effect from the epoch after the operation: nothing at or before the current epoch moves
         if !matches!(c.op, FuOp::Advance { .. } | FuOp::Base) {
